@@ -101,14 +101,15 @@ def check_sequence(ops):
     return judge(done, snaps, finds, rows)
 
 
-def shrink(ops, pred, budget=400):
-    """one-at-a-time delta debugging: drop operations while pred(ops) stays true"""
+def shrink(ops, pred, budget=400, seconds=25.0):
+    """one-at-a-time delta debugging: drop operations while pred(ops) stays true (bounded in tries and time)"""
     ops = list(ops)
     changed = True
-    while changed and budget > 0:
+    t_end = time.time() + seconds
+    while changed and budget > 0 and time.time() < t_end:
         changed = False
         i = len(ops) - 1
-        while i >= 0 and budget > 0:
+        while i >= 0 and budget > 0 and time.time() < t_end:
             cand = ops[:i] + ops[i + 1:]
             budget -= 1
             try:
